@@ -20,6 +20,7 @@ import (
 	"time"
 
 	"github.com/attestantio/dirk/util/loggers"
+	"github.com/attestantio/dirk/util/verifhook"
 	badger "github.com/dgraph-io/badger/v2"
 	"github.com/dgraph-io/badger/v2/options"
 	"github.com/opentracing/opentracing-go"
@@ -133,6 +134,9 @@ func (s *Store) Fetch(ctx context.Context, key []byte) ([]byte, error) {
 	if len(key) == 0 {
 		return nil, errors.New("no key provided")
 	}
+	if err := verifhook.Point("fetch.enter", key); err != nil {
+		return nil, err
+	}
 
 	var value []byte
 	err := s.db.View(func(txn *badger.Txn) error {
@@ -181,6 +185,9 @@ func (s *Store) BatchStore(ctx context.Context, keys [][]byte, values [][]byte) 
 		}
 	}
 
+	if err := verifhook.Point("batchstore.enter", keys[0]); err != nil {
+		return err
+	}
 	wb := s.db.NewWriteBatch()
 	defer wb.Cancel()
 
@@ -204,6 +211,9 @@ func (s *Store) Store(ctx context.Context, key []byte, value []byte) error {
 
 	if len(value) == 0 {
 		return errors.New("no value provided")
+	}
+	if err := verifhook.Point("store.enter", key); err != nil {
+		return err
 	}
 
 	return s.db.Update(func(txn *badger.Txn) error {
